@@ -50,9 +50,7 @@ pub fn convert_integer(
     validation: &Option<Box<NumberValidation>>,
     format: &Option<String>,
 ) -> Result<String, ()> {
-    type_space
-        .verif_convert_integer(metadata, validation, format)
-        .map_err(|_| ())
+    type_space.verif_convert_integer(metadata, validation, format)
 }
 
 /// `TypeSpace::convert_number`: name of the selected Rust float type.
@@ -62,9 +60,7 @@ pub fn convert_number(
     validation: &Option<Box<NumberValidation>>,
     format: &Option<String>,
 ) -> Result<String, ()> {
-    type_space
-        .verif_convert_number(metadata, validation, format)
-        .map_err(|_| ())
+    type_space.verif_convert_number(metadata, validation, format)
 }
 
 /// `util::StringValidator::new(..)?.is_valid(s)`; `None` if construction
